@@ -95,9 +95,14 @@ func (Engine) Run(ctx *hk.RunCtx) error {
 		r := hk.Derive(ctx.Seed, uint64(i))
 		var data *Data
 		var q *Q
-		if r.Chance(1, 8) {
+		if c := r.Intn(24); c < 3 {
 			data, q = genBoundary(r)
 			e.hit("class:pushdown-boundary")
+		} else if c < 7 {
+			var cl string
+			data, q, cl = genInBoundary(r)
+			e.hit("class:in-subquery-boundary")
+			e.hit("in-subquery-boundary:" + cl)
 		} else {
 			data = genData(r)
 			q = genQuery(r, data)
@@ -422,7 +427,8 @@ func (e *run) runCase(c Case, idx uint64) error {
 		e.ctx.Res.Disagree(d)
 	}
 
-	return e.modelChecks(c, w, local, cluster, calls, caseJSON, idx, detail != "")
+	subFailed := e.inListOracle(c, w, caseJSON, idx)
+	return e.modelChecks(c, w, local, cluster, calls, caseJSON, idx, detail != "" || subFailed)
 }
 
 // classify shortens a detail to a stable class (Result.ByDetail keys).
